@@ -128,6 +128,10 @@ pub struct ShardResult {
     pub exhaustive_parts: Vec<String>,
     pub units_done: u32,
     pub generator_defects: Vec<String>,
+    /// Non-trivial cases that are distinct by construction (enumerations), counted instead of
+    /// hashed.
+    #[serde(default)]
+    pub distinct_by_construction: u64,
 }
 
 #[derive(Serialize, Deserialize, Clone, Debug)]
@@ -538,6 +542,14 @@ impl Ctx {
             i.res.nontrivial_cases += 1;
             i.hashes.insert(k);
         }
+    }
+
+    /// Accounting for enumerated cases that are distinct by construction.
+    pub fn tally_enumerated(&self, evals: u64, nontrivial: u64) {
+        let mut i = self.inner.borrow_mut();
+        i.res.evals += evals;
+        i.res.nontrivial_cases += nontrivial;
+        i.res.distinct_by_construction += nontrivial;
     }
 
     pub fn add_sample(&self, v: Value) {
